@@ -86,10 +86,12 @@ def run(prop, tier, seed):
         vlib.require_mc_ok(ml, "KeeperMC liveness (weakly fair plotter: popped requests are resolved, plotting ends, the plotter returns to idle)")
         v.cov["liveness_states"] = ml["distinct"]
         mi = vlib.tlc_mc(d, "KeeperImplMC.tla", "KeeperImplMC.cfg", timeout=1200)
-        vlib.require_mc_ok(mi, "KeeperImplMC (no wedge other than the known one)")
+        vlib.require_mc_ok(mi, "KeeperImplMC (SendRule = refuse: no wedged state)")
         mw = vlib.tlc_mc(d, "KeeperImplMC.tla", "KeeperImplWedge.cfg", timeout=1200)
         v.cov["impl_states"], v.cov["impl_transitions"] = mi["distinct"], mi["states"]
-        v.cov["impl_known_wedge_reachable_in_model"] = bool(mw["violated"])
+        v.cov["impl_wedge_reachable_with_blocking_send"] = bool(mw["violated"])
+        if not mw["violated"]:
+            raise vlib.Machinery("KeeperImpl with SendRule=block no longer shows the sender waiting on the full channel under the state lock")
         # start / stop of the keeper and the life of its plotter goroutine: the repaired join rule holds, the pinned
         # one is refuted (its counterexample is the StartStopStart schedule run on the real keeper below)
         lb = vlib.tlc_mc(d, "KeeperLife.tla", "KeeperLife_before.cfg", timeout=300)
@@ -102,7 +104,7 @@ def run(prop, tier, seed):
         v.cov["impl_pop_race_reachable_with_unchecked_pop"] = bool(mp["violated"])
         if not mp["violated"]:
             raise vlib.Machinery("KeeperImpl with PopRule=unchecked no longer shows the pop-on-emptied-queue schedule: the model has become vacuous about it")
-        log("MC KeeperImpl: %d distinct states, no unknown wedge; known wedge reachable in the model: %s" % (mi["distinct"], bool(mw["violated"])))
+        log("MC KeeperImpl: %d distinct states, no wedged state with the repaired send rule; the pinned (blocking) rule reaches the wedge: %s" % (mi["distinct"], bool(mw["violated"])))
     n = 500 if tier == "quick" else 5000
     behs = []
     for s2 in range(1 if tier == "quick" else 3):
@@ -183,7 +185,8 @@ def api_stage(v, prop, d, drv, seed, tier):
 
 
 def burst(v, d, drv, seed, tier):
-    """C13: more outstanding requests than the request channel holds (known finding F-C13a)."""
+    """C13: more outstanding requests than the request channel holds: every one must return (accepted or refused), the
+    keeper must go on answering and must stop (F-C13a, repaired: a full channel refuses; KeeperImpl.tla SendRule)."""
     sc = [dict(sc=9001, seed=seed, steps=[dict(a="Burst", n=1030)], opt=dict(spaces=3, init={}))]
     sf, tf = os.path.join(d, "burst.json"), os.path.join(d, "burst.ndjson")
     json.dump(sc, open(sf, "w"))
@@ -193,7 +196,7 @@ def burst(v, d, drv, seed, tier):
     if not ev:
         raise vlib.Machinery("burst scenario did not run: %s" % t.get("note"))
     e = ev[0]
-    v.cov["burst"] = {k: e.get(k) for k in ("n", "returned", "chancap", "after_plot_queries", "after_plot_stop")}
+    v.cov["burst"] = {k: e.get(k) for k in ("n", "returned", "refused", "chancap", "after_plot_queries", "after_plot_stop")}
     if e.get("after_plot_queries") == "hang" or e.get("after_plot_stop") == "hang" or e.get("returned", 0) < e.get("n", 0):
         desc_ = ("with %s Plot requests outstanding during a plot (channel capacity %s) only %s returned; after the plot ended "
                  "queries: %s, keeper Stop: %s" % (e.get("n"), e.get("chancap"), e.get("returned"), e.get("after_plot_queries"), e.get("after_plot_stop")))
